@@ -123,6 +123,9 @@ func reChar(c int, inClass bool) string {
 	if c == '\n' {
 		return `\n`
 	}
+	if c < 32 || c == 127 {
+		return fmt.Sprintf(`\x%02x`, c) // control characters by their RE2 escape: the pattern text itself stays printable
+	}
 	return string(r)
 }
 
